@@ -17,4 +17,5 @@ var (
 	ErrDatabaseIsUsing        = errors.New("the database directory is used by another process")
 	ErrMergeRatioUnreached    = errors.New("the merge ratio do not reach the option")
 	ErrNoEnoughSpaceForMerge  = errors.New("no enough disk space for merge")
+	ErrMergeFileIDConflict    = errors.New("merge output needs more data files than it replaces")
 )
